@@ -78,6 +78,7 @@ def run(F, rep, tier):
     components_rule(F, rep)
     whole_months_rule(F, rep, tier)
     wall_clock_rule(F, rep)
+    date_components_rule(F, rep)
     instants_rule(F, rep)
     # the properties of a date-and-time (time offset, timezone) are those at the value's own date: its time component never reaches the zone-at-today operations (C13's R13.6)
     import callgraph
@@ -357,22 +358,41 @@ def offset_rule(F, rep):
                 got = " + ".join("%d*%s" % (c, n) for n, c in sorted(lin[0].items())) + (" + %d" % lin[1] if lin[1] else "")
                 probs.append("for a %s offset %s seconds the value is %s, expected %s(3600*h + 60*m%s)" % ("negative" if sg < 0 else "positive", "with" if "s" in want else "without", got,
                                                                                                             "-" if sg < 0 else "", " + s" if "s" in want else ""))
-            # the bound on the hours under which this value is returned
-            bound = None
+            # the bounds on hours, minutes and seconds under which this value is returned (conjunctions / disjunctions of comparisons are split into their parts)
+            def atoms(c3, truth):
+                if isinstance(c3, tuple) and c3 and c3[0] == "or" and truth is False:
+                    return atoms(c3[1], False) + atoms(c3[2], False)
+                if isinstance(c3, tuple) and c3 and c3[0] == "and" and truth is True:
+                    return atoms(c3[1], True) + atoms(c3[2], True)
+                if isinstance(c3, tuple) and c3 and c3[0] == "not":
+                    return atoms(c3[1], not truth)
+                return [(c3, truth)]
+            bounds = {}
             for c in conds:
-                if c[0] == "if" and len(c) > 3 and c[3][0] == "cmp" and ("sym", "h") in (c[3][2], c[3][3]):
-                    op, a, b, truth = c[3][1], c[3][2], c[3][3], c[2]
-                    if a == ("sym", "h") and b[0] == "lit":        # h op K
-                        k = b[1]
-                        ub = {("<", True): k - 1, ("<=", True): k}.get((op, truth))
-                    elif b == ("sym", "h") and a[0] == "lit":      # K op h
-                        k = a[1]
-                        ub = {("<", False): k, ("<=", False): k - 1}.get((op, truth))
-                    else:
-                        ub = None
-                    if ub is not None:
-                        bound = ub if bound is None else min(bound, ub)
-            seen_bound.add(bound)
+                if not (c[0] == "if" and len(c) > 3):
+                    continue
+                for c3, truth in atoms(c[3], c[2]):
+                    if not (isinstance(c3, tuple) and c3 and c3[0] == "cmp"):
+                        continue
+                    for nm in ("h", "m", "s"):
+                        if ("sym", nm) not in (c3[2], c3[3]):
+                            continue
+                        op, a, b = c3[1], c3[2], c3[3]
+                        if a == ("sym", nm) and b[0] == "lit":        # x op K
+                            k = b[1]
+                            ub = {("<", True): k - 1, ("<=", True): k}.get((op, truth))
+                        elif b == ("sym", nm) and a[0] == "lit":      # K op x
+                            k = a[1]
+                            ub = {("<", False): k, ("<=", False): k - 1}.get((op, truth))
+                        else:
+                            ub = None
+                        if ub is not None:
+                            bounds[nm] = ub if nm not in bounds else min(bounds[nm], ub)
+            seen_bound.add(bounds.get("h"))
+            if bounds.get("m") != 59:
+                probs.append("offsets are accepted with minutes up to %s (the lexical form allows two digits; 60 and above is not a time zone offset)" % bounds.get("m", "99"))
+            if "s" in want and bounds.get("s") != 59:
+                probs.append("offsets are accepted with seconds up to %s" % bounds.get("s", "99"))
         if seen_some < 0:
             rep.undecided(r4, key, "%s: the offset handed to FeelZone::new does not fold to a linear form of hours / minutes / seconds" % name)
         elif seen_some == 0:
@@ -747,3 +767,63 @@ def wall_clock_rule(F, rep):
         else:
             rep.undecided(rid, simple, "the returned offset does not derive from a chrono resolution call the rule knows")
     rep.analysed["offset_resolution_functions"] = found
+
+
+# ======================================================================================================
+# R15.9: date construction from numbers takes whole numbers in range as they are
+def date_components_rule(F, rep):
+    """'date construction from numbers rejects components outside their range': in the conversion (number, number, number) -> FeelDate the year, month and day stored in the
+    date derive from the numbers without a *rounding or wrapping* carrier.  The infallible conversions `From<FeelNumber> for u8 / i32 ..` go through decQuadToUInt32 / ToInt32
+    with half-even rounding and an `as` cast: 2.5 becomes 2, 258 becomes 2.  Decided on MIR: the backward data slice of the components of every FeelDate aggregate built in that
+    conversion contains none of these conversions and no narrowing integer cast."""
+    import mirutil
+    rid = rep.rule("R15.9", "the year / month / day of a date built from three numbers derive from them without a rounding or wrapping conversion (no From<FeelNumber> for a primitive integer, no narrowing cast)")
+    names = [n for n in F.bodies if re.search(r"TryFrom<\(dmntk_feel_number::number::FeelNumber, dmntk_feel_number::number::FeelNumber, dmntk_feel_number::number::FeelNumber\)>", n)
+             and "FeelDate" in n and n.endswith("::try_from")]
+    if not names:
+        rep.undecided(rid, "date-from-numbers", "no TryFrom<(FeelNumber, FeelNumber, FeelNumber)> for FeelDate")
+        return
+    b = F.bodies[names[0]]
+    B = mirutil.Body(F, b)
+    sites = 0
+    bad = []
+    for bl in b["blocks"]:
+        for st in bl["s"]:
+            if not (st[0] == "A" and st[2][0] == "Agg" and isinstance(st[2][1], list) and st[2][1][0] == "adt" and st[2][1][1].endswith("::FeelDate") and len(st[2][2]) == 3):
+                continue
+            sites += 1
+            seen, work = set(), [o[1][0] for o in st[2][2] if o[0] in ("C", "M")]
+            while work:
+                l = work.pop()
+                if l in seen:
+                    continue
+                seen.add(l)
+                for (dbi, si, kind, d) in B.defs.get(l, []):
+                    ls = set()
+                    if kind == "call":
+                        p = d["f"].get("p") or ""
+                        if re.search(r"<(u|i)(8|16|32|64|size) as core::convert::From<&?dmntk_feel_number::number::FeelNumber>>::from$", p) or \
+                                (p.endswith("Into<T>>::into") or p.endswith("::into")) and re.search(r"FeelNumber", str(d["f"].get("substs") or "")) and re.search(r"\b(u|i)(8|16|32|64|size)\b", str(d["f"].get("substs") or "")):
+                            bad.append("%s (line %s)" % (p.split(">::")[-1] + " of a FeelNumber into a primitive integer", d.get("line")))
+                        if re.search(r"dec::dec_to_(u|i)32$", p):
+                            bad.append("%s (line %s)" % (p.split("::")[-1], d.get("line")))
+                        operand_locals(d.get("args", []), ls)
+                    else:
+                        rv = d[2]
+                        if rv[0] == "Cast" and "IntToInt" in str(rv[1]) and rv[2][0] in ("C", "M"):
+                            src_ty, dst_ty = B.local_ty(rv[2][1][0]), B.local_ty(d[1][0])
+                            w = lambda t: {"u8": 8, "i8": 8, "u16": 16, "i16": 16, "u32": 32, "i32": 32, "u64": 64, "i64": 64, "usize": 64, "isize": 64, "u128": 128, "i128": 128}.get(t)
+                            if w(src_ty) and w(dst_ty) and w(dst_ty) < w(src_ty):
+                                bad.append("a narrowing cast %s as %s (line %s)" % (src_ty, dst_ty, d[-1]))
+                        operand_locals(rv, ls)
+                        if rv[0] in ("Ref", "AddrOf", "RawPtr") and isinstance(rv[2], list) and rv[2] and isinstance(rv[2][0], int):
+                            ls.add(rv[2][0])
+                    work.extend(ls - seen)
+    where = "%s:%s" % (b["file"], b["line"])
+    if not sites:
+        rep.undecided(rid, "date-from-numbers", "the conversion builds no FeelDate aggregate itself")
+    elif bad:
+        rep.violation(rid, "date-from-numbers", "the components of the date derive from the numbers through %s: a fractional component is rounded and a component above the type's range wraps "
+                      "(date(2021, 258, 1) is a date in February)" % sorted(set(bad))[0], where)
+    else:
+        rep.ok(rid, "date-from-numbers", "%d aggregate(s): no rounding / wrapping conversion in the data slice of the components" % sites)
